@@ -122,6 +122,13 @@ def run(chk):
     fi = repo.func(FILE, "cnf")
     cname = func_params(fi.node)[0]
     n_eval = 0
+    # ---- structural rules (no evaluation) ---------------------------------
+    from ..structural import dispatch_rule, idpool_string_key_rule, vocabulary_rule
+
+    vocabulary_rule(chk, repo, "C01.S.vocabulary", [(FILE, "cnf"), (FILE, "approx_model_count")])
+    dispatch_rule(chk, repo, "C01.S.dispatch", FILE, "cnf", set(sup) - {"x"})
+    nsinks = idpool_string_key_rule(chk, repo, "C01.S.aux-key-not-a-string", FILE, "cnf")
+    chk.floor("IDPool.id call sites in cnf", nsinks, 40)
 
     def encode(spec):
         c, types, fanin = make_circuit(spec)
